@@ -2,14 +2,14 @@
 # tools/mutant_check.sh <patch.diff> <property ids...> : run quick checks against a scratch copy of
 # the repository with the patch applied (never /repo itself). Prints one line per check.
 PATCH=$(realpath $1); shift
-MR=/tmp/mut_repo
+MR=${MR:-/tmp/mut_repo}
 if [ ! -d $MR ]; then git -C /repo worktree add -q --detach $MR HEAD || exit 2; fi
 git -C $MR checkout -q --detach $(git -C /repo rev-parse HEAD) 2>/dev/null
 git -C $MR checkout -q -- . ; git -C $MR apply $PATCH || { echo "patch does not apply"; exit 2; }
 for ID in "$@"; do
-  OUT=/tmp/mut_out/$ID; rm -rf $OUT
-  VERIF_REPO=$MR VERIF_OUT=$OUT /verif/check $ID quick ${MUT_ARGS:-} > /tmp/mut_out_$ID.log 2>&1; RC=$?
-  V=$(grep -m1 "^violation oracle" /tmp/mut_out_$ID.log | cut -c1-260)
+  OUT=/tmp/mut_out_$(basename $MR)/$ID; rm -rf $OUT
+  VERIF_REPO=$MR VERIF_OUT=$OUT /verif/check $ID quick ${MUT_ARGS:-} > /tmp/mut_out_$(basename $MR)_$ID.log 2>&1; RC=$?
+  V=$(grep -m1 "^violation oracle" /tmp/mut_out_$(basename $MR)_$ID.log | cut -c1-260)
   echo "CHECK $ID exit=$RC $V"
 done
 git -C $MR checkout -q -- .
